@@ -425,9 +425,17 @@ theorem connection_authenticated_only_via_authenticator (e : AuthEnv) (claimed :
       rw [this]
     · simp [hok] at h
 
-/-- every call of the connection manager's `authenticate` is followed by an error return (inbound and outbound) -/
+/-- every call of the connection manager's `authenticate` is followed by an error return (inbound and outbound);
+    `extractCertificate` returns exactly `PeerCertificates[0]` (no loop, no selection among the peer's certificates) -/
 theorem fact_authenticate_call_sites : Facts.C15.cmAuthenticateCalls = 2 ∧ Facts.C15.cmAuthenticateCallsChecked = 2 ∧
-    Facts.C15.cmAuthenticateErrorReturnsZeroPeer = true ∧ Facts.C15.extractCertificateIndex = "0" := by decide
+    Facts.C15.cmAuthenticateErrorReturnsZeroPeer = true ∧ Facts.C15.extractCertificateIndex = "0" ∧
+    Facts.C15.extractCertificateReturns = ["nil", "tlsInfo.State.PeerCertificates[0]"] ∧ Facts.C15.extractCertificateLoops = 0 := by decide
+
+/-- the authenticated certificate is the proven one: appending certificates (the victim's public certificate, CAs, in
+    any position after the first) never changes which certificate is used -/
+theorem authenticated_with_proven_certificate {α : Type} (first : α) (appended appended' : List α) :
+    peerCertificate (first :: appended) = some first ∧ peerCertificate (first :: appended) = peerCertificate (first :: appended') :=
+  ⟨rfl, rfl⟩
 
 theorem encryptCount_ok : ∀ (parts : List KeyRes) (k : Nat), encryptCount parts = .ok k → k = parts.length ∧ ∀ p ∈ parts, p = .ok := by
   intro parts
